@@ -180,7 +180,7 @@ class Gen:
     def side(self, base, path, tags):
         for k, s in enumerate(path.side):
             if z3.is_true(z3.simplify(s["goal"])): continue
-            self.obls.append({"id": "%s/safety:%s@L%s" % (base, s["what"], s["line"]), "hyps": list(s["hyps"]) + distinct_names(), "goal": s["goal"],
+            self.obls.append({"id": "%s/safety:%s@[%s]" % (base, s["what"], s["at"]), "hyps": list(s["hyps"]) + distinct_names(), "goal": s["goal"],
                               "kind": "safety", "tags": tags, "meta": {}})
 
     # ------------------------------------------------------------------------------------------ _solv_outp_volt
